@@ -1,2 +1,106 @@
-(* C15 — placeholder while the proofs are being developed. *)
-Require Import Model.Dom Spec.DomSpec.
+(* C15 — dominators, immediate dominators, dominator-tree children and
+   dominance frontiers computed by (the mirror of) `DominatorTree::new` match
+   their path-based definitions, for every rooted digraph, every iteration
+   order of the candidate set, with the stated fuel; no panic site is reached.
+   Property theorems only: each is closed by [exact] of a lemma of
+   Proofs.DomProofs, followed by Print Assumptions. *)
+From stdpp Require Import list.
+Require Import Model.Dom Spec.DomSpec Proofs.DomProofs Proofs.DomOracle.
+
+(* the `while !done` loop ends within |g|^2 + 1 passes *)
+Theorem C15_dom_fuel_suffices : forall g,
+  rooted g -> exists D, compute_dominators (dom_fuel g) g = Ok D /\ length D = length g.
+Proof. exact dom_fuel_suffices. Qed.
+Print Assumptions C15_dom_fuel_suffices.
+
+(* DominatorTree::new returns: neither assert fires, no index is out of range,
+   neither loop runs out of the stated fuel — for every hash order *)
+Theorem C15_no_panic : forall g ord,
+  rooted g -> order_ok ord ->
+  exists t, dominator_tree (dom_fuel g) ord g = Ok t /\
+    length (dt_dominators t) = length g /\ length (dt_idom t) = length g /\
+    length (dt_children t) = length g /\ length (dt_frontier t) = length g.
+Proof. exact dominator_tree_no_panic. Qed.
+Print Assumptions C15_no_panic.
+
+(* the computed dominator set of j is exactly the set of nodes on every
+   entry-to-j path *)
+Theorem C15_dominators_exact : forall g ord t j dj i,
+  rooted g -> order_ok ord -> dominator_tree (dom_fuel g) ord g = Ok t ->
+  dt_dominators t !! j = Some dj ->
+  (mem i dj = true <-> dom g i j).
+Proof. intros g ord t j dj i Hg Hord Ht. exact (dominators_exact g ord t Hg Hord Ht j dj i). Qed.
+Print Assumptions C15_dominators_exact.
+
+(* the computed immediate dominator is the closest strict dominator ... *)
+Theorem C15_idom_exact : forall g ord t i o j,
+  rooted g -> order_ok ord -> dominator_tree (dom_fuel g) ord g = Ok t ->
+  dt_idom t !! i = Some o ->
+  (o = Some j <-> idom_spec g j i).
+Proof. intros g ord t i o j Hg Hord Ht. exact (idom_exact g ord t Hg Hord Ht i o j). Qed.
+Print Assumptions C15_idom_exact.
+
+(* ... which is unique ... *)
+Theorem C15_idom_unique : forall g a b i,
+  rooted g -> i < length g -> idom_spec g a i -> idom_spec g b i -> a = b.
+Proof. exact idom_spec_unique. Qed.
+Print Assumptions C15_idom_unique.
+
+(* ... and exists for every node except the entry *)
+Theorem C15_idom_total : forall g ord t i o,
+  rooted g -> order_ok ord -> dominator_tree (dom_fuel g) ord g = Ok t ->
+  dt_idom t !! i = Some o ->
+  (o = None <-> i = 0).
+Proof. intros g ord t i o Hg Hord Ht. exact (idom_total g ord t Hg Hord Ht i o). Qed.
+Print Assumptions C15_idom_total.
+
+(* the dominator-tree children invert the immediate dominators *)
+Theorem C15_dom_tree_children_invert_idom : forall g ord t j cj i,
+  rooted g -> order_ok ord -> dominator_tree (dom_fuel g) ord g = Ok t ->
+  dt_children t !! j = Some cj -> i < length g ->
+  (mem i cj = true <-> dt_idom t !! i = Some (Some j)).
+Proof. intros g ord t j cj i Hg Hord Ht. exact (children_invert_idom g ord t Hg Hord Ht j cj i). Qed.
+Print Assumptions C15_dom_tree_children_invert_idom.
+
+(* the dominance frontier of i is exactly the set of j such that i dominates
+   a predecessor of j but does not strictly dominate j *)
+Theorem C15_frontier_exact : forall g ord t i fi j,
+  rooted g -> order_ok ord -> dominator_tree (dom_fuel g) ord g = Ok t ->
+  dt_frontier t !! i = Some fi ->
+  (mem j fi = true <-> df_spec g i j).
+Proof. intros g ord t i fi j Hg Hord Ht. exact (frontier_exact g ord t Hg Hord Ht i fi j). Qed.
+Print Assumptions C15_frontier_exact.
+
+(* the executable rootedness test used to filter the enumerated graphs *)
+Theorem C15_rooted_b_sound : forall g, rooted_b g = true -> rooted g.
+Proof. exact rooted_b_sound. Qed.
+Print Assumptions C15_rooted_b_sound.
+
+(* the executable oracle of the violation search (dominance by deleting a node
+   and testing reachability) decides the path definition ... *)
+Theorem C15_dom_by_deletion_correct : forall g i j,
+  rooted g -> j < length g -> (dom_by_deletion g i j = true <-> dom g i j).
+Proof. exact dom_by_deletion_correct. Qed.
+Print Assumptions C15_dom_by_deletion_correct.
+
+(* ... and the four tables the engine prints on the spec side are exactly the
+   definitions (so "implementation = spec side" on a rooted graph IS the
+   property for that graph) *)
+Theorem C15_spec_view_correct : forall g,
+  rooted g ->
+  let n := length g in
+  let T := avoid_table g in
+  (forall j i, j < n -> (i ∈ spec_dominators n T !!! j <-> dom g i j)) /\
+  (forall j i, j < n -> (i ∈ spec_idom n T !!! j <-> idom_spec g i j)) /\
+  (forall i j, i < n -> j < n -> (j ∈ spec_children n (spec_idom n T) !!! i <-> idom_spec g i j)) /\
+  (forall i j, i < n -> (j ∈ spec_frontier g T !!! i <-> df_spec g i j)).
+Proof. exact spec_view_correct. Qed.
+Print Assumptions C15_spec_view_correct.
+
+(* the hypotheses are satisfiable: an irreducible graph with a self loop is
+   rooted, the three orders used by the engine are orders *)
+Example C15_rooted_example :
+  rooted (mk_graph 5 [(0,1);(0,2);(1,3);(2,3);(3,1);(3,4);(4,4);(1,2);(2,1)]).
+Proof. apply rooted_b_sound. vm_compute. reflexivity. Qed.
+Example C15_orders_ok : order_ok id_order /\ order_ok rev_order /\ order_ok rot_order.
+Proof. exact orders_ok. Qed.
